@@ -14,7 +14,7 @@ import (
 
 func init() {
 	register(&Prop{ID: "C02", Gen: genC02, Oracle: oracleC02,
-		Rule: "C20's generators (grammar-directed go.mod/go.work files with every layout feature, mutations, token soup, malformed streams, long lines) plus the formatter's own outputs fed back as inputs (format, reformat, parse with and without the stub fixer on Format(f.Syntax)); non-trivial = parses to >= 2 statements or fails past the first token; distinct by op line"})
+		Rule: "C20's generators (grammar-directed go.mod/go.work files with every layout feature, mutations, token soup, malformed streams, long lines) plus the formatter's own outputs fed back as inputs (format, reformat, parse with and without the stub fixer on Format(f.Syntax)); comment tails: comments the directive layer reads a value from (indirect / Deprecated / rationale) followed by trailing blanks, tabs or Unicode spaces before LF / CRLF / end of input, swept over every directive kind in line and block form and appended at random to generated files; non-trivial = parses to >= 2 statements or fails past the first token; distinct by op line"})
 }
 
 func genC02(g *Gen, n int) {
@@ -35,12 +35,24 @@ func genC02(g *Gen, n int) {
 		c20Emit(g, "modfile.parse stub "+h, nt, "boundary")
 		c20Emit(g, "modfile.parsework nofix "+h, nt, "boundary")
 	}
+	// comment-tail sweep: one op per input, rotating through the parsers and the formatter (5 ops;
+	// 5 is coprime to every dimension of the sweep, so each parser meets each comment x blank pair)
+	k := 0
+	c02CommentTailSweep(func(s string, work bool) {
+		h := hx(s)
+		op := []string{"modfile.parse nofix ", "modfile.parse stub ", "modfile.parselax nofix ", "modfile.format ", "modfile.reformat "}[k%5]
+		if work && strings.HasPrefix(op, "modfile.parse") {
+			op = "modfile.parsework " + []string{"nofix ", "stub "}[k%2]
+		}
+		k++
+		c20Emit(g, op+h, true, "comment-tail")
+	})
 	for g.st.Ops < n {
 		if g.Chance(6) {
 			c20LeafOps(g) // AutoQuote / Quote / Unquote / TrimSpace … on their own
 			continue
 		}
-		s, tag := c20GenInput(g.Rand)
+		s, tag := c02GenInput(g.Rand)
 		nt := c20Nontrivial(s)
 		h := hx(s)
 		fix := "nofix"
@@ -48,7 +60,7 @@ func genC02(g *Gen, n int) {
 			fix = "stub"
 		}
 		pop := "modfile.parse "
-		if tag == "gowork" || tag != "gomod" && g.Chance(25) {
+		if base := strings.TrimSuffix(tag, "-blank-tails"); base == "gowork" || base != "gomod" && g.Chance(25) {
 			pop = "modfile.parsework "
 		}
 		switch g.Intn(4) {
@@ -312,6 +324,114 @@ var c02EscapedNewlineCases = []string{
 	"x \"p\\\nq\" ( // c2\n)\n",
 }
 
+// ---- input class "comment tail": comments followed by TRAILING blanks before the line terminator.
+//
+// Why it was missing: C20's comment texts end at the newline except for three free-text ones
+// ("// trailing spaces   ", "//\t tab ", "// Deprecated:   spaced  "); none of the comments the
+// directive layer READS A VALUE from (`// indirect` on a require line, `// Deprecated: …` on the module
+// line, the rationale of a retract) was ever followed by a blank or tab.  The lexer keeps such trailing
+// blanks in the comment token (only the line terminator is cut, and before CRLF the blanks stay too),
+// while the printer emits TrimSpace(token): so this is exactly the class on which "the value parsed from
+// the input" and "the value parsed from the formatted text" are computed from DIFFERENT comment tokens,
+// i.e. where clause 3 of the property (same directive values) is not implied by clause 1 (same trimmed
+// comment texts).  Two generators: an exhaustive small sweep (template x comment x blanks x terminator)
+// and a random mutation that appends blanks to the comment lines of any generated file.
+
+// c02TailComments: the comments whose text the directive layer interprets, in their accepted and
+// nearly-accepted spellings, and two free-text ones.
+var c02TailComments = []string{"// indirect", "//indirect", "//\tindirect", "//  indirect", "// indirect; reason", "// indirect;", "// indirect ;x", "// indirect // indirect",
+	"// Deprecated: use other", "// Deprecated:", "// rationale text", "//"}
+
+// c02TailBlanks: what may stand between the comment text and the line terminator.
+var c02TailBlanks = []string{" ", "\t", "   ", " \t ", "\t\t", "\u00a0", "\u3000", "\f", " \v"}
+
+// c02TailTemplates: %C = end-of-line comment (with its gap), %L = whole-line comment.  Every directive
+// kind that reads a comment (require: indirect; module: deprecated; retract: rationale) in line and block
+// form, the other kinds, block headers / closers, and go.work.
+var c02TailTemplates = []struct {
+	text string
+	work bool
+}{
+	{"module example.com/m\n\ngo 1.21\n\nrequire example.com/a v1.2.3%C\n", false},
+	{"module example.com/m\n\nrequire (\n\texample.com/a v1.2.3%C\n\texample.com/b v1.0.0 // indirect\n\texample.com/c v1.0.0\n)\n", false},
+	{"module example.com/m\n\nrequire (\n\t%L\n\texample.com/a v1.2.3\n\texample.com/b v1.0.0%C\n)\n\nrequire example.com/c v1.0.0%C\n", false},
+	{"module example.com/m%C\n\ngo 1.21\n", false},
+	{"%L\nmodule example.com/m\n", false},
+	{"%L\n%L\nmodule (\n\texample.com/m%C\n)\n", false},
+	{"module example.com/m\nretract v1.0.0%C\n", false},
+	{"module example.com/m\n%L\nretract [v1.0.0, v1.1.0]\nretract (\n\t%L\n\t[v1.2.0, v1.3.0]%C\n\tv1.4.0%C\n)\n", false},
+	{"module example.com/m\nexclude example.com/a v1.2.3%C\nreplace example.com/a => ./a%C\ntool example.com/t%C\ngodebug a=b%C\n", false},
+	{"module example.com/m\nrequire (%C\n\texample.com/a v1.2.3\n)%C\n", false},
+	{"go 1.21%C\nuse ./a%C\nuse (\n\t%L\n\t./b%C\n)\nreplace example.com/a => ./a%C\n", true},
+}
+
+// c02OddIndents: white space other than blank and tab in front of a WHOLE-LINE comment (the lexer
+// decides whole-line vs end-of-line by whether anything but white space precedes the `//` on its line;
+// the grammar generator indents comment lines with tabs only, so a carriage return / form feed /
+// Unicode space there was met only by a lucky one-byte mutation).
+var c02OddIndents = []string{"", "\r", " \r", "\r\t", "\f", "\u00a0", "\v "}
+
+// c02CommentTailSweep calls f on template x comment x blanks x terminator (LF, CRLF, LF without the
+// final terminator).  The gap before an end-of-line comment cycles through blank / tab / nothing, the
+// extra indentation of a whole-line comment through c02OddIndents.
+func c02CommentTailSweep(f func(s string, work bool)) {
+	gaps := []string{" ", "\t", ""}
+	i := 0
+	for _, t := range c02TailTemplates {
+		for _, c := range c02TailComments {
+			for _, b := range c02TailBlanks {
+				for term := 0; term < 3; term++ {
+					s := strings.ReplaceAll(t.text, "%C", gaps[i%3]+c+b)
+					s = strings.ReplaceAll(s, "%L", c02OddIndents[i%len(c02OddIndents)]+c+b)
+					i++
+					switch term {
+					case 1:
+						s = strings.ReplaceAll(s, "\n", "\r\n")
+					case 2:
+						s = strings.TrimSuffix(s, "\n")
+					}
+					f(s, t.work)
+				}
+			}
+		}
+	}
+}
+
+// c02BlankTails: the random member of the class — appends blanks (before the CR of a CRLF) to lines
+// of a generated file that carry a comment, and now and then gives a comment-less line one of the
+// interpreted comments with a blank tail.
+func c02BlankTails(r *Rand, s string) string {
+	lines := strings.Split(s, "\n")
+	for i, l := range lines {
+		if i == len(lines)-1 && l == "" {
+			continue
+		}
+		cr := ""
+		if strings.HasSuffix(l, "\r") {
+			l, cr = l[:len(l)-1], "\r"
+		}
+		switch {
+		case strings.HasPrefix(strings.TrimSpace(l), "//") && r.Chance(30):
+			l = r.Pick(c02OddIndents) + l + r.Pick(c02TailBlanks)
+		case strings.Contains(l, "//") && r.Chance(60):
+			l += r.Pick(c02TailBlanks)
+		case strings.TrimSpace(l) != "" && !strings.HasSuffix(strings.TrimSpace(l), "(") && r.Chance(12):
+			l += r.Pick([]string{" ", "\t", ""}) + r.Pick(c02TailComments) + r.Pick(c02TailBlanks)
+		}
+		lines[i] = l + cr
+	}
+	return strings.Join(lines, "\n")
+}
+
+// c02GenInput: C20's input families, a share of the well-formed ones with blank tails.
+func c02GenInput(r *Rand) (string, string) {
+	s, tag := c20GenInput(r)
+	if (tag == "gomod" || tag == "gowork") && r.Chance(15) {
+		return c02BlankTails(r, s), tag + "-blank-tails"
+	}
+	return s, tag
+}
+
 func c02OracleInput(g *Gen, s, tag string) {
 	data := []byte(s)
 	h := hx(s)
@@ -365,6 +485,21 @@ func c02OracleInput(g *Gen, s, tag string) {
 				} else if v2 := c02Values(f2); v2 != v {
 					g.Fail("directive values differ after formatting (go.mod)", fmt.Sprintf("fix=%s input=%q output=%q before=%q after=%q", fix, s, y, v, v2), ops...)
 				}
+				// the same file (strict-accepted, well-formed: the property's precondition) observed
+				// through the lax parser, which the property names as an observation point: the values
+				// ParseLax reads from the input and from the formatted text are the same
+				if fl, err := modfile.ParseLax(c20FileName, data, fx); err == nil {
+					g.Case("lax-of-strict-wellformed-" + fix)
+					vl := c02Values(fl)
+					yl := modfile.Format(fl.Syntax)
+					ops := []string{"modfile.parselax " + fix + " " + h, "modfile.parselax " + fix + " " + hx(string(yl))}
+					fl2, err := modfile.ParseLax(c20FileName, yl, fx)
+					if err != nil {
+						g.Fail("formatted go.mod is rejected by the lax parser", fmt.Sprintf("fix=%s input=%q output=%q err=%v", fix, s, yl, err), ops...)
+					} else if vl2 := c02Values(fl2); vl2 != vl {
+						g.Fail("directive values differ after formatting (go.mod, lax parser)", fmt.Sprintf("fix=%s input=%q output=%q before=%q after=%q", fix, s, yl, vl, vl2), ops...)
+					}
+				}
 			}
 			if f, err := modfile.ParseWork(c20FileName, data, fx); err == nil && c02WorkWellFormed(f) {
 				g.Case("work-wellformed-" + fix)
@@ -389,8 +524,9 @@ func oracleC02(g *Gen, n int) {
 	for _, s := range c20Boundary {
 		c02OracleInput(g, s, "boundary")
 	}
+	c02CommentTailSweep(func(s string, work bool) { c02OracleInput(g, s, "comment-tail") })
 	for i := 0; i < n; i++ {
-		s, tag := c20GenInput(g.Rand)
+		s, tag := c02GenInput(g.Rand)
 		c02OracleInput(g, s, tag)
 	}
 }
